@@ -47,6 +47,7 @@ func smOpWeights(mode string) smWeights {
 		w["nround"] = 10
 		w["adv"] = 14
 	case "C12":
+		w["restart"] = 3 // the timer discipline must also hold right after a restart (step derived from recorded votes)
 		w["fire"] = 10
 		w["firec"] = 5
 		w["nv"] = 18
